@@ -481,8 +481,10 @@ theorem readBlockLen_rel (ignored : Bool) (fuel : Nat) :
           intro _ _ _
           exact ih
       · apply RelD.bind (readVarint_rel _)
-        intro _ _ _
-        exact RelD.pure rfl
+        intro a b hab; subst hab
+        split
+        · exact RelD.fail
+        · exact RelD.pure rfl
     · exact RelD.pure rfl
 
 theorem hasMore_rel (cfg : DeConfig) (ignored : Bool) (bs : BlockState) :
